@@ -932,6 +932,28 @@ def r01_11(ctx):
                     ok = True
                     why = f"the count over the repaired text ({transformed[0]}) is mapped back through {nm}(original, n) before eat()"
         ctx.ob("R01.11", f"deserialize_value:parse#{k}", ok, f.loc(t["ln"]), why if ok else why + ": the reader index can pass the end of the input (panic in remain(), spurious EOF)")
+        # the same holds for the position carried by an error: it counts the bytes of the repaired text
+        re_ = None
+        tb = [(bb, tt) for bb, tt in f.calls() if callee_is(tt, "branch") and op_local(tt["args"][0]) == res]
+        re_ = result_edges(f, tb[0][1]["dest"][0]) if tb else result_edges(f, res)
+        if re_ is None:
+            ctx.ob("R01.11", f"deserialize_value:parse#{k}:error-position", False, f.loc(t["ln"]), "cannot find the error edge of the parse over the repaired text (fail closed)")
+            continue
+        err_blocks = f.reachable_from(re_[1]) | {re_[1]}
+        mapped = False
+        for bb, tt in f.calls():
+            if bb not in err_blocks or tt["callee"].rsplit("::", 1)[-1] in ("from_residual", "branch", "from", "into"):
+                continue
+            for a in tt["args"]:
+                la = op_local(a)
+                if la is None:
+                    continue
+                dsl, dleaves = backward_slice(f, [la], through_calls=False)
+                if any(x[0] == "call" and callee_is(x[2], "as_u8_slice") for x in dleaves):
+                    mapped = True
+        ctx.ob("R01.11", f"deserialize_value:parse#{k}:error-position", mapped, f.loc(t["ln"]),
+               "an error of the parse over the repaired text is re-rendered against the original input before it is returned" if mapped else
+               "an error of the parse over the repaired text is returned as is: its offset / line / column count the bytes of the repaired text and can lie behind the end of the input")
 
 
 def r01_12(ctx):
